@@ -324,6 +324,9 @@ def check(tier):
         [{"k": "AddStructure", "name": NEW_S}, {"k": "AddProperty", "target": NEW_S, "name": "verifProp", "ty": "arrayLiteral", "optional": False}],
         [{"k": "AddStructure", "name": NEW_S}, {"k": "AddExtends", "target": NEW_S, "parent": "Position"}],
         [{"k": "AddStructure", "name": NEW_S}, {"k": "AddMixin", "target": NEW_S, "parent": "WorkDoneProgressParams"}],
+        # parents that have parents of their own (inheritance must be flattened transitively through mixins and extends)
+        [{"k": "AddStructure", "name": NEW_S}, {"k": "AddMixin", "target": NEW_S, "parent": "HoverOptions"}],
+        [{"k": "AddStructure", "name": NEW_S}, {"k": "AddExtends", "target": NEW_S, "parent": "HoverParams"}],
         [{"k": "AddEnum", "name": NEW_E, "base": "string"}, {"k": "AddEnumValue", "target": NEW_E}],
     ]
     seen, uniq = set(), []
